@@ -14,6 +14,10 @@ def t3(rep, tier, seed):
     for algo in ("greedy", "kk", "roundrobin", "multifit"):
         dom = [{"algo": algo, "values": v, "k": k} for v in ms for k in range(1, K + 1)]
         dom += [{"algo": algo, "values": v, "k": k} for v in rnd for k in (2, 3, 4)]
+        # the guarantees are about values: named items whose names (shuffled integers / strings) are unrelated to the values
+        dom += [{"algo": algo, "values": v, "k": k, "fmt": f} for v in ms[::3] for k in (2, 3) for f in ("intdict", "names")]
+        if algo == "multifit":      # the bound is 1.22 + 2^-iterations for the requested number of iterations, not only the default
+            dom += [{"algo": algo, "values": v, "k": k, "iterations": i} for v in ms for k in (2, 3) for i in (1, 2, 3)]
         rep.add(H.run_case(f"C08/T3/{algo}/guarantees", f"prtpy.partitioning::{algo}", T.c08_case, dom, bound))
         pl = []
         for _ in range(30 if tier == "quick" else 300):
